@@ -88,6 +88,8 @@ def shards(tier):
         out.append({"buf": buf, "geom": {"kind": "flat"}, "slice": [0, 1]})
     # compressed grains whose deflate stream ends within a few bytes of a sector boundary (marker header 12 or 4 bytes)
     out.append({"buf": 8192, "geom": {"kind": "tuned"}, "slice": [0, 1]})
+    # one request over a very long run of unallocated / zero grains (longer than any plausible scratch buffer)
+    out.append({"buf": 8192, "geom": {"kind": "longrun"}, "slice": [0, 1]})
     return out
 
 
@@ -97,6 +99,13 @@ def _alpha(g):
 
 def run_shard(shard, ctx):
     g = shard["geom"]
+    if g["kind"] == "longrun":
+        for kind in ("hosted", "cowd", "sesparse"):
+            for fill in (HOLE, ZERO):
+                if kind == "cowd" and fill == ZERO:
+                    continue
+                run_case({"geom": g, "ext": kind, "fill": fill}, ctx)
+        return
     if g["kind"] == "tuned":
         for lba in (True, False):
             for footer in (True, False):
@@ -151,7 +160,30 @@ def run_case(case, ctx):
     buf = bootstrap.bufsize()
     ctx.executions += 1
     ctx.sample(case)
-    if g["kind"] == "tuned":
+    if g["kind"] == "longrun":
+        grain = 128
+        n = 420  # 420 x 64 KiB = 26 MiB
+        states = [DATA] + [case["fill"]] * (n - 3) + [DATA, DATA]
+        slots = [1] + [None] * (n - 3) + [0, 2]
+        capacity = n * grain - 5
+        size = capacity * 512
+        if case["ext"] == "hosted":
+            img = B.build_hosted(states, slots, grain, 512, capacity)
+        elif case["ext"] == "cowd":
+            img = B.build_cowd(states, slots, grain, capacity)
+        else:
+            img = B.build_sesparse(states, slots, grain, 64, capacity)
+        disk = B.model(states, grain, capacity)
+        ctx.model(case)
+        ctx.nontrivial += 1
+        ctx.outcome("zero-below-base" if case["fill"] == HOLE else "zero@L1")
+        reqs = [(0, size), (65536 - 512, size - 65536), (70000, 20 << 20), (size - (9 << 20), 9 << 20)]
+        sreqs = [(0, capacity), (100, capacity - 200)]
+        states = slots = srcs = full_states = full_slots = None
+        unit = grain * 512
+        subject = "vmdk." + case["ext"] + ".longrun"
+        fh = img.sparse(log=False)
+    elif g["kind"] == "tuned":
         L = case["len"]
         grain = 8
         explicit = {}
@@ -223,7 +255,7 @@ def run_case(case, ctx):
             ctx.violation(case, {"subject": subject + ".size", "kind": "mismatch"}, {"got": v.size, "expected": size})
             return
         if srcs is None:
-            if g["kind"] == "tuned":
+            if g["kind"] in ("tuned", "longrun"):
                 pass
             elif states is None:
                 ctx.outcome("raw", len(reqs))
